@@ -349,6 +349,47 @@ pub fn parse_numeral(s: &str) -> Option<Numeral> {
     Some(Numeral { int: BigInt::from_biguint(sign, mag), scale: frac_digits as i128 - exp })
 }
 
+/// A deliberately PERMISSIVE numeral shape: `[+-]? [0-9_]* ( . [0-9_]* )? ( [eE] [+-]? [0-9]+ )?` with at least one
+/// digit in the mantissa. It is a superset of every reading of the crate's documented grammar (sign, digits with
+/// '_' separators, at most one '.', optional e/E exponent with optional sign); a string that does not even have
+/// this shape is "non-numeric input" and must be reported as an error.
+pub fn has_numeral_shape(s: &str) -> bool {
+    let b = s.as_bytes();
+    let mut i = 0;
+    if i < b.len() && (b[i] == b'+' || b[i] == b'-') {
+        i += 1;
+    }
+    let mut digits = 0;
+    while i < b.len() && (b[i].is_ascii_digit() || b[i] == b'_') {
+        digits += b[i].is_ascii_digit() as usize;
+        i += 1;
+    }
+    if i < b.len() && b[i] == b'.' {
+        i += 1;
+        while i < b.len() && (b[i].is_ascii_digit() || b[i] == b'_') {
+            digits += b[i].is_ascii_digit() as usize;
+            i += 1;
+        }
+    }
+    if digits == 0 {
+        return false;
+    }
+    if i < b.len() && (b[i] == b'e' || b[i] == b'E') {
+        i += 1;
+        if i < b.len() && (b[i] == b'+' || b[i] == b'-') {
+            i += 1;
+        }
+        let s0 = i;
+        while i < b.len() && b[i].is_ascii_digit() {
+            i += 1;
+        }
+        if i == s0 {
+            return false;
+        }
+    }
+    i == b.len()
+}
+
 /// Strict JSON number grammar: -? (0 | [1-9][0-9]*) (. [0-9]+)? ([eE] [+-]? [0-9]+)?
 pub fn is_json_number(s: &str) -> bool {
     let b = s.as_bytes();
